@@ -36,31 +36,30 @@ impl<'n> TryFromNode<'n> for RustNode {
             doc.switch_to_target_namespace(target_namespace);
         }
 
-        // check if the node has an attribute that starts with xmlns
+        // the namespace declarations in scope of this node hold while it is read; a prefix that the
+        // node rebinds means something else again once the node is done
+        let enclosing_scope = doc.namespace_scope();
         collect_namespaces_on_node(node, doc);
-
-        let mut rust_type = RustType::Ignore;
-        match node.tag_name().name() {
-            "complexType" | "group" => {
-                // determine complexType's-type: struct, enum, list
-                rust_type = RustType::Complex(ComplexProps::try_from_node(node, doc)?.into());
-            }
-            "simpleType" => {
-                // determine simpleType's-type: enum, list
-                rust_type = RustType::Simple(SimpleProps::try_from_node(node, doc)?.into());
-            }
-            "element" => {
-                // determine element's-type: struct, enum, list
-                rust_type = RustType::Element(ElementProps::try_from_node(node, doc)?.into());
-            }
-            _ => {}
-        }
+        let rust_type = read_rust_type(node, doc);
+        doc.restore_namespace_scope(enclosing_scope);
 
         Ok(RustNode {
-            rust_type,
+            rust_type: rust_type?,
             in_namespace: doc.current_target_namespace.clone(),
         })
     }
+}
+
+fn read_rust_type<'n>(node: Node<'n, 'n>, doc: &mut RustDocument) -> WriterResult<RustType> {
+    Ok(match node.tag_name().name() {
+        // determine complexType's-type: struct, enum, list
+        "complexType" | "group" => RustType::Complex(ComplexProps::try_from_node(node, doc)?.into()),
+        // determine simpleType's-type: enum, list
+        "simpleType" => RustType::Simple(SimpleProps::try_from_node(node, doc)?.into()),
+        // determine element's-type: struct, enum, list
+        "element" => RustType::Element(ElementProps::try_from_node(node, doc)?.into()),
+        _ => RustType::Ignore,
+    })
 }
 
 pub fn collect_namespaces_on_node<'n>(node: Node<'n, 'n>, doc: &mut RustDocument) {
